@@ -334,6 +334,10 @@ func runFilters(t *testing.T, rc *core.RunCtx) {
 		runLongFilters(t, rc)
 		return
 	}
+	if isDirectedC04(rc) {
+		runDirectedC04(t, rc)
+		return
+	}
 	tp := rc.Tape
 	params := chainmodel.NewParams(chainmodel.ParamOpts{RetargetInterval: []int{0, 8}[tp.Intn(2)]})
 	w := newWorld(t, rc, params)
